@@ -296,7 +296,7 @@ pub fn final_hop_acceptance_tests(onion_cltv_expiry: u32, cltv_expiry: u32, curr
                  else { onion_amt_msat <= amt_msat }),
  {
         if onion_cltv_expiry > cltv_expiry { return Err(1); }
-        if cltv_expiry <= current_height + HTLC_FAIL_BACK_BUFFER { return Err(2); }
+        if cltv_expiry <= current_height + HTLC_FAIL_BACK_BUFFER + 1 { return Err(2); }
         if (!allow_underpay && onion_amt_msat > amt_msat) ||
 		(allow_underpay && onion_amt_msat >
 		 amt_msat.saturating_add(counterparty_skimmed_fee_msat.unwrap_or(0))) { return Err(3); }
